@@ -1,7 +1,7 @@
 """Per-property harness registry for ./check."""
 
 # library packages whose functions are executed from their own SSA rather than stubbed
-DEFAULT_EXTRA = ['github.com/beevik/etree', 'github.com/golang-jwt/jwt/v4']
+DEFAULT_EXTRA = ['github.com/beevik/etree', 'github.com/golang-jwt/jwt/v4', 'github.com/russellhaering/goxmldsig']
 
 NOT_APPLICABLE = {
     'C07': 'decided by library code outside the reach of the encoder: etree character escaping, exclusive c14n, RSA/ECDSA signing and verification, AES/OAEP, and the encoding/xml tokenizer (DESIGN.md section 6)',
@@ -42,6 +42,13 @@ CHECKS = {
         'harnesses': [
             {'name': 'Harness_C09_assertion', 'pkg': 'saml', 'replay': 'direct', 'must_reach': ['returned'],
              'opts': {'time_res': 1000000, 'panic_is_violation': True}, 'quick': {'K': 2}, 'thorough': {'K': 3}},
+        ],
+    },
+    'C12': {
+        'level_text': 'z3 decides, for all configuration strings at once, that the request struct and its Element() form carry the configured issuer, destination, ACS URL, binding, name-ID policy and an ID that is the hex form of >=16 bytes drawn from RandReader in this call.',
+        'level_note': 'real MakeAuthenticationRequest, nameIDFormat, randomBytes, AuthnRequest.Element and the etree builder code executed from SSA; RandReader is a harness reader returning solver-chosen bytes. Outside: deflate/base64/XML serialisation (library loops).',
+        'harnesses': [
+            {'name': 'Harness_C12_authnrequest', 'pkg': 'saml', 'replay': 'direct', 'must_reach': ['made']},
         ],
     },
     'C10': {
